@@ -773,3 +773,32 @@ package tds
 //@   requires [complete] packet.Header.Length == 8 + len(packet.Data)
 //@   requires [not-queued] forall j int :: 0 <= j && j < len(tdsChan.queueRx.queue) ==> tdsChan.queueRx.queue[j] != packet
 //@ typeinv Conn { [plumbing] this.tdsChannelsLock != nil && this.errCh != nil && !closed(this.errCh) }
+
+//@ # ---------------------------------------------------------------------
+//@ # Login record (C06 / C09): fixed layout, written into a bytes.Buffer whose content is
+//@ # the io.Writer ghost stream of the buffer object.
+//@ func writeString returns (err)
+//@   requires [stream] nonnil(stream)
+//@   requires [pad] 0 <= padTo && padTo <= 255
+//@   requires [wlen] 0 <= stream.$wlen
+//@   modifies stream.$wire, stream.$wlen
+//@   ensures [rejects-oversized] len(s) > padTo ==> err != nil && stream.$wlen == old(stream.$wlen)
+//@   ensures [length] err == nil ==> len(s) <= padTo && stream.$wlen == old(stream.$wlen) + padTo + 1
+//@   ensures [value] err == nil ==> (forall k int :: 0 <= k && k < len(s) ==> stream.$wire[old(stream.$wlen) + k] == sat(s, k))
+//@   ensures [padding] err == nil ==> (forall k int :: 0 <= k && k < padTo - len(s) ==> stream.$wire[old(stream.$wlen) + len(s) + k] == 0)
+//@   ensures [length-byte] err == nil ==> stream.$wire[old(stream.$wlen) + padTo] == len(s)
+//@   ensures [prefix-kept] forall k int :: 0 <= k && k < old(stream.$wlen) ==> stream.$wire[k] == old(stream.$wire[k])
+//@   ensures [grows] old(stream.$wlen) <= stream.$wlen
+//@ pred encrypting(e TDSMsgId) { e == TDS_MSG_SEC_ENCRYPT || e == TDS_MSG_SEC_ENCRYPT2 || e == TDS_MSG_SEC_ENCRYPT3 || e == TDS_MSG_SEC_ENCRYPT4 }
+//@ pred recbuf(p Package) { as(p, *TokenlessPackage).Data }
+//@ func (*LoginConfig).pack returns (pkg, err)
+//@   requires [dsn] config.DSN != nil
+//@   modifies
+//@   ensures [record] err == nil ==> is(pkg, *TokenlessPackage) && payload(pkg) != 0 && recbuf(pkg) != nil && fresh(recbuf(pkg)) && recbuf(pkg).$wlen >= 473
+//@   ensures [oversized-rejected] len(config.Hostname) > 30 || len(config.DSN.Username) > 30 || len(config.HostProc) > 30 || len(config.AppName) > 30 || len(config.ServName) > 30 || (!encrypting(config.Encrypt) && len(config.DSN.Password) > 30) ==> err != nil
+//@   ensures [hostname] err == nil ==> recbuf(pkg).$wire[30] == len(config.Hostname) && (forall k int :: 0 <= k && k < len(config.Hostname) ==> recbuf(pkg).$wire[k] == sat(config.Hostname, k))
+//@   ensures [username] err == nil ==> recbuf(pkg).$wire[61] == len(config.DSN.Username) && (forall k int :: 0 <= k && k < len(config.DSN.Username) ==> recbuf(pkg).$wire[31 + k] == sat(config.DSN.Username, k))
+//@   ensures [password-slot-empty-when-encrypting] err == nil && encrypting(config.Encrypt) ==> (forall k int :: 0 <= k && k <= 30 ==> recbuf(pkg).$wire[62 + k] == 0)
+//@   ensures [password-clear-otherwise] err == nil && !encrypting(config.Encrypt) ==> recbuf(pkg).$wire[92] == len(config.DSN.Password) && (forall k int :: 0 <= k && k < len(config.DSN.Password) ==> recbuf(pkg).$wire[62 + k] == sat(config.DSN.Password, k))
+//@   ensures [remote-password-slot-empty] err == nil ==> (forall k int :: 0 <= k && k <= 255 ==> recbuf(pkg).$wire[202 + k] == 0)
+//@   ensures [tds-version] err == nil ==> recbuf(pkg).$wire[458] == 5 && recbuf(pkg).$wire[459] == 0 && recbuf(pkg).$wire[460] == 0 && recbuf(pkg).$wire[461] == 0
